@@ -13,6 +13,8 @@ pub struct MsgRec {
     pub id: String,
     /// generation sequence number of the message id (id shim); None if the id was not generated in this run
     pub gen: Option<u64>,
+    /// the activity (one poll / one client call) during which the message was generated
+    pub gen_activity: Option<u64>,
     pub pid: String,
     pub tid: String,
     pub nid: String,
